@@ -1,5 +1,7 @@
 (* C11 - Zernike modes are the Noll-ordered orthonormal polynomials. *)
-From LV Require Import Model.Zernike Proofs.ZernikeP Proofs.ZernikeFloatP.
+From Coq Require Import Reals.
+From Coquelicot Require Import Coquelicot.
+From LV Require Import Lib.Cis Model.Zernike Proofs.ZernikeP Proofs.ZernikeFloatP Proofs.ZernikeRadialP Proofs.ZernikeIntP.
 
 (* ---- (a) Noll's ordering ----
    [noll j] = (m, n) is the closed form: row n = ceil((-1 + sqrt(1+8j))/2) - 1 computed with the
@@ -48,7 +50,161 @@ Proof. exact (fun j H => conj (proj1 (row_float_exact j H)) (conj (proj2 (row_fl
 Print Assumptions C11_noll_float_exact.
 
 
+(* ---- (c) the radial polynomial ----
+   [rcoef m n k] is the code's factorial quotient (-1)^k (n-k)! / (k! ((n+m)/2-k)! ((n-m)/2-k)!),
+   [radial m n rho] the code's sum of rcoef * rho^(n-2k) over the rationals.  Bounded: n <= 40. *)
+Theorem C11_radial_is_textbook :
+  forall n m k, 0 <= m <= n -> n <= 40 -> Z.even (n - m) = true -> 0 <= k <= (n - m) / 2 ->
+    (* an integer: the product of binomial coefficients of the textbook form (Pascal's triangle) *)
+    rcoef m n k = zQ ((if Z.even k then 1 else -1) * binom (n - k) k * binom (n - 2 * k) ((n - m) / 2 - k)).
+Proof. exact radial_is_textbook. Qed.
+Print Assumptions C11_radial_is_textbook.
+
+Theorem C11_radial_at_one :
+  forall m n, Z.abs m <= n -> n <= 40 -> Z.even (n - Z.abs m) = true -> radial m n 1%Qc = 1%Qc.
+Proof. exact radial_at_one. Qed.
+Print Assumptions C11_radial_at_one.
+
+(* ---- the mode: value = normalisation * R_n^|m|(rho) * azimuthal factor * mask ----
+   Any commutative ring [S] with kernel e(t) = exp(-2 pi i t); theta = 2 pi t;
+   cos(2 pi s) := (e(s) + e(-s))/2, sin(2 pi s) := (e(-s) - e(s)) e(1/4)/2.
+   For odd j the code's factor is sin(m theta) with the NEGATIVE m (so -sin(|m| theta)): the
+   property fixes "odd j sine", not the sign; this is the factor as the code has it. *)
+Theorem C11_mode_factorisation :
+  forall (S : Scalar), is_ring S -> forall (sq : Qc -> S) m n normalize rho t (mask : bool),
+  (@kofq S 1%Qc = k1 ->
+   zernike_pt sq m n normalize rho t mask
+   = ((if m =? 0 then (if n =? 0 then k1 else if normalize then sq (zQ (n + 1)) else k1)
+       else if normalize then (sq (zQ 2) * sq (zQ (n + 1)))%K else k1)
+      * kofq (radial m n rho)
+      * (if m =? 0 then k1 else if 0 <? m then kcos (zQ m * t)%Qc else ksin (zQ m * t)%Qc)
+      * (if mask then k1 else k0))%K)
+  (* zero outside the mask *)
+  /\ zernike_pt sq m n normalize rho t false = k0
+  (* the executed model runs with sq = 1 and reports [norm2]; the code's factor multiplies it ... *)
+  /\ zernike_pt sq m n normalize rho t mask
+     = (norm_factor sq m n normalize * zernike_pt (fun _ => k1) m n normalize rho t mask)%K
+  (* ... and its square is norm2 = 1, n+1 or 2(n+1) *)
+  /\ ((forall q, (sq q * sq q)%K = kofq q) -> (forall a b : Qc, @kofq S (a * b)%Qc = (kofq a * kofq b)%K) ->
+      @kofq S 1%Qc = k1 -> 0 <= n ->
+      (norm_factor sq m n normalize * norm_factor sq m n normalize)%K
+      = kofq (zQ (if normalize then (if m =? 0 then (if n =? 0 then 1 else n + 1) else 2 * (n + 1)) else 1))).
+Proof.
+  exact (fun S R sq m n nz rho t b =>
+    conj (zernike_pt_factor S R sq m n nz rho t b)
+   (conj (zernike_pt_outside S R sq m n nz rho t)
+   (conj (zernike_pt_unnormalised S R sq m n nz rho t b)
+         (norm_factor_square S R sq m n nz)))).
+Qed.
+Print Assumptions C11_mode_factorisation.
+
+(* on the complex numbers, with the real square root: Noll's formula *)
+Theorem C11_mode_on_C :
+  forall m n normalize (rho t : Qc) (mask : bool), 0 <= n ->
+  zernike_pt (S := CS) (fun q => RtoC (sqrt (Q2R q))) m n normalize rho t mask
+  = RtoC (sqrt (IZR (if normalize then (if m =? 0 then (if n =? 0 then 1 else n + 1) else 2 * (n + 1)) else 1))
+          * Q2R (radial m n rho)
+          * (let theta := (2 * PI * Q2R t)%R in
+             if m =? 0 then 1 else if 0 <? m then cos (IZR m * theta) else sin (IZR m * theta))
+          * (if mask then 1 else 0))%R.
+Proof. exact zernike_pt_textbook. Qed.
+Print Assumptions C11_mode_on_C.
+
+(* a whole call depends on the mask only through its support (np.asarray(mask, dtype=bool)) *)
+Theorem C11_mode_mask_support_only :
+  forall (S : Scalar) (sq : Qc -> S) rowf j normalize (pts1 pts2 : list (Qc * Qc * Qc)),
+  Forall2 (fun p q => fst p = fst q /\ mask_bool (snd p) = mask_bool (snd q)) pts1 pts2 ->
+  zernike sq rowf j normalize pts1 = zernike sq rowf j normalize pts2.
+Proof. exact zernike_support_only. Qed.
+Print Assumptions C11_mode_mask_support_only.
+
+(* ---- (d) orthogonality ---- *)
+(* radial, weight rho on [0,1] (Riemann integral; bounded: n, n' <= 20).  The polynomial is the
+   model's term list evaluated on the reals, as [radial] evaluates it on the rationals. *)
+Theorem C11_radial_orthogonality :
+  let Rpoly := fun (p : list (Z * Qc)) (x : R) =>
+                 fold_left (fun acc (t : Z * Qc) => (acc + Q2R (snd t) * x ^ Z.to_nat (fst t))%R) p 0%R in
+  (forall m n rho, Z.even (Z.abs n - Z.abs m) = true ->
+     Q2R (radial m n rho) = Rpoly (radial_terms (Z.abs m) (Z.abs n)) (Q2R rho))
+  /\ forall m n n', 0 <= m -> m <= n <= 20 -> m <= n' <= 20 -> Z.even (n - m) = true -> Z.even (n' - m) = true ->
+     is_RInt (fun rho => (Rpoly (radial_terms m n) rho * Rpoly (radial_terms m n') rho * rho)%R) 0%R 1%R
+             (if n =? n' then (/ (2 * IZR (n + 1)))%R else 0%R).
+Proof. exact (conj radial_Reval radial_orthogonality_RInt). Qed.
+Print Assumptions C11_radial_orthogonality.
+
+(* azimuthal, over a full turn, all integers m, m' (the factor as the code has it) *)
+Theorem C11_angular_orthogonality :
+  let az := fun (m : Z) (theta : R) =>
+              if m =? 0 then 1%R else if 0 <? m then cos (IZR m * theta) else sin (IZR m * theta) in
+  forall m m',
+  is_RInt (fun theta => (az m theta * az m' theta)%R) 0%R (2 * PI)%R
+          (if m =? m' then (if m =? 0 then 2 * PI else PI)%R else 0%R).
+Proof. exact angular_orthogonality. Qed.
+Print Assumptions C11_angular_orthogonality.
+
+(* composed (bounded: j, j' <= 231, i.e. n <= 20): (1/pi) * integral over the unit disk of Z_j Z_j',
+   in separated form N_j N_j' (int_0^1 R R' rho drho) (int_0^2pi A A' dtheta) / pi, is delta_jj':
+   unit mean square (piston: the constant 1), vanishing cross products *)
+Theorem C11_zernike_orthonormal :
+  let Rpoly := fun (p : list (Z * Qc)) (x : R) =>
+                 fold_left (fun acc (t : Z * Qc) => (acc + Q2R (snd t) * x ^ Z.to_nat (fst t))%R) p 0%R in
+  let az := fun (m : Z) (theta : R) =>
+              if m =? 0 then 1%R else if 0 <? m then cos (IZR m * theta) else sin (IZR m * theta) in
+  forall j j' m n m' n', 1 <= j <= 231 -> 1 <= j' <= 231 -> noll j = (m, n) -> noll j' = (m', n') ->
+  exists Ir Ia : R,
+    is_RInt (fun rho => (Rpoly (radial_terms (Z.abs m) n) rho * Rpoly (radial_terms (Z.abs m') n') rho * rho)%R) 0%R 1%R Ir /\
+    is_RInt (fun theta => (az m theta * az m' theta)%R) 0%R (2 * PI)%R Ia /\
+    (sqrt (IZR (norm2 m n true)) * sqrt (IZR (norm2 m' n' true)) * Ir * Ia / PI)%R = if j =? j' then 1%R else 0%R.
+Proof. exact zernike_orthonormal. Qed.
+Print Assumptions C11_zernike_orthonormal.
+
+(* ---- (e) zernike_coordinates(mask) ----
+   [mbit] is the mask as 0/1 (non-zero -> 1); rho is represented by rho^2, theta by the vector
+   (c_dirx, c_diry) whose argument it is.  All array sizes: no parity hypothesis anywhere. *)
+Theorem C11_coordinates_origin :
+  forall (mask : arr QS) (c : coords), zernike_coordinates mask = Ok c ->
+  (* the origin is the centroid of the support *)
+  c_origin_r c = (sum2 (nr mask) (nc mask) (fun i j => (zQ i * mbit mask i j)%Qc) / mcount mask)%Qc /\
+  c_origin_c c = (sum2 (nr mask) (nc mask) (fun i j => (zQ j * mbit mask i j)%Qc) / mcount mask)%Qc /\
+  (* rho^2 and the direction of theta are measured from it *)
+  forall i j,
+    c_rho2 c i j = ((qsqr (zQ i - c_origin_r c) + qsqr (zQ j - c_origin_c c)) / c_rmax2 c)%Qc /\
+    c_dirx c i j = (- (zQ j - c_origin_c c))%Qc /\ c_diry c i j = (- (zQ i - c_origin_r c))%Qc.
+Proof.
+  exact (fun mask c H => conj (proj1 (coords_origin_is_centroid mask c H))
+                        (conj (proj2 (coords_origin_is_centroid mask c H)) (coords_about_origin mask c H))).
+Qed.
+Print Assumptions C11_coordinates_origin.
+
+Theorem C11_rho_one_at_farthest :
+  forall (mask : arr QS) (c : coords), zernike_coordinates mask = Ok c ->
+  let d2 := fun i j => (qsqr (zQ i - c_origin_r c) + qsqr (zQ j - c_origin_c c))%Qc in
+  (* c_rmax2 is the largest squared distance over the masked samples *)
+  (forall i j, 0 <= i < nr mask -> 0 <= j < nc mask -> mask_bool (get mask i j) = true -> (d2 i j <= c_rmax2 c)%Qc)
+  /\ ((0 < c_rmax2 c)%Qc ->
+      (forall i j, 0 <= i < nr mask -> 0 <= j < nc mask -> mask_bool (get mask i j) = true -> (c_rho2 c i j <= 1)%Qc)
+      /\ exists i j, 0 <= i < nr mask /\ 0 <= j < nc mask /\ mask_bool (get mask i j) = true /\ c_rho2 c i j = 1%Qc).
+Proof. exact (fun mask c H => conj (proj1 (rmax2_is_max mask c H)) (rho_one_at_farthest mask c H)). Qed.
+Print Assumptions C11_rho_one_at_farthest.
+
+Theorem C11_coordinates_support_only :
+  forall (m1 m2 : arr QS) c1 c2, nr m1 = nr m2 -> nc m1 = nc m2 ->
+  (forall i j, 0 <= i < nr m1 -> 0 <= j < nc m1 -> mask_bool (get m1 i j) = mask_bool (get m2 i j)) ->
+  zernike_coordinates m1 = Ok c1 -> zernike_coordinates m2 = Ok c2 ->
+  c_origin_r c1 = c_origin_r c2 /\ c_origin_c c1 = c_origin_c c2 /\ c_rmax2 c1 = c_rmax2 c2 /\
+  (forall i j, c_rho2 c1 i j = c_rho2 c2 i j /\ c_dirx c1 i j = c_dirx c2 i j /\ c_diry c1 i j = c_diry c2 i j).
+Proof. exact coords_support_only. Qed.
+Print Assumptions C11_coordinates_support_only.
+
+(* (f) |Z| <= 1 without normalisation is NOT proved (a Jacobi-polynomial bound): numeric test in
+   harness/props/c11.py:extra, labelled as a test. *)
+
 Example C11_nonvacuous :
   map noll [1; 2; 3; 4; 5; 6; 7; 8; 11] = [(0,0); (1,1); (-1,1); (0,2); (-2,2); (2,2); (-1,3); (1,3); (0,4)]
-  /\ noll_exact 7 = Ok (-1, 3) /\ noll_float 7 = Ok (-1, 3) /\ row_float 200000 = 631.
-Proof. repeat split; vm_compute; reflexivity. Qed.
+  /\ noll_exact 7 = Ok (-1, 3) /\ noll_float 7 = Ok (-1, 3) /\ row_float 200000 = 631
+  (* R_4^0(1/2) = 6/16 - 6/4 + 1 = -1/8;  a 3x4 mask with an off-centre support of three samples *)
+  /\ radial 0 4 (Q2Qc (1 # 2)) = Q2Qc (-1 # 8)
+  /\ (match zernike_coordinates (of_list (S := QS) 3 4 (map zQ [0; 0; 0; 0;  0; 0; 2; 5;  0; 0; 0; 7])) with
+      | Ok c => c_origin_r c = Q2Qc (4 # 3) /\ c_origin_c c = Q2Qc (8 # 3) /\ (0 < c_rmax2 c)%Qc /\ c_rho2 c 1 2 = 1%Qc
+      | Err _ => False end).
+Proof. repeat split; try (vm_compute; reflexivity); apply Qc_is_canon; vm_compute; reflexivity. Qed.
